@@ -236,7 +236,39 @@ func shimOverlay(ov map[string]string) {
 	})
 }
 
+// commonOverlay adds the library files under harness/common/<pkg>/ (non-test files compiled into
+// that package for every build, e.g. the command-level sim client inside package rueidis).
+func commonOverlay(ov map[string]string, xf func(src, dst string) error, outDir string) error {
+	root := filepath.Join(verifDir, "harness", "common")
+	dirs, _ := os.ReadDir(root)
+	for _, d := range dirs {
+		pkg := strings.ReplaceAll(d.Name(), "__", "/")
+		if d.Name() == "_root" {
+			pkg = "."
+		}
+		files, _ := os.ReadDir(filepath.Join(root, d.Name()))
+		for _, f := range files {
+			if !strings.HasSuffix(f.Name(), ".go") {
+				continue
+			}
+			src := filepath.Join(root, d.Name(), f.Name())
+			if xf != nil {
+				out := filepath.Join(outDir, "c_"+d.Name()+"_"+f.Name())
+				if err := xf(src, out); err != nil {
+					return err
+				}
+				src = out
+			}
+			ov[filepath.Join(repoDir, pkg, "zz_verif_"+f.Name())] = src
+		}
+	}
+	return nil
+}
+
 func harnessOverlay(k binKey, ov map[string]string, xf func(src, dst string) error, outDir string) error {
+	if err := commonOverlay(ov, xf, outDir); err != nil {
+		return err
+	}
 	ents, err := os.ReadDir(k.harnessDir())
 	if err != nil {
 		return fmt.Errorf("no harness dir for %v: %v", k, err)
